@@ -1,96 +1,73 @@
-// Scenario for the per-connection loop (C01 / C04 / C06 and, with an upgrade op, C02):
-// a stream of K framed messages; for each, what the JSON parser finds (or that it fails),
-// which kind of target the method names, and — for the registered interface — what the
-// method implementation does.
+// Scenario for the per-connection loop VarlinkService::handle (C01, C02 upgrade clause, C06):
+// a stream of K framed messages; for each, whether it parses, which path of the loop its
+// method name selects, and what the dispatched interface does (how many replies it writes,
+// and whether it returns Ok, returns Err, or asks for an upgrade).
+//
+// What a *particular* interface replies (built-in service, unknown interface, reply flags)
+// is the business of VarlinkService::call / Interface::call / Call::reply_* and is verified
+// at that level (C03, C04, C05).
 use super::src_trait::Src;
 
 pub const KMAX: usize = 3;
-pub const MAXOPS: usize = 2;
 
-// targets
-pub const T_GETINFO: u8 = 0; // org.varlink.service.GetInfo
-pub const T_GETDESC: u8 = 1; // org.varlink.service.GetInterfaceDescription
-pub const T_BUILTIN_UNKNOWN: u8 = 2; // org.varlink.service.Nope
-pub const T_REGISTERED: u8 = 3; // a.b.M   (interface a.b is registered, scripted)
-pub const T_UNKNOWN_IFACE: u8 = 4; // a.c.M
-pub const T_NODOT: u8 = 5; // nodot
-pub const T_EMPTY: u8 = 6; // ""
+pub const T_DISPATCH: u8 = 0; // a.b.M  -> dispatched to interface "a.b"
+pub const T_NODOT: u8 = 1; // nodot  -> no interface part
+pub const T_EMPTY: u8 = 2; // ""
+// further dispatched shapes (C03: the name is split at the LAST dot, whatever is around it)
+pub const T_LEADING_DOT: u8 = 3; // .M      -> interface ""
+pub const T_DOUBLE_DOT: u8 = 4; // a..M    -> interface "a."
+pub const T_TRAILING_DOT: u8 = 5; // M.      -> interface "M"
+pub const T_SERVICE: u8 = 6; // org.varlink.service.GetInfo -> interface "org.varlink.service"
 pub const NTARGETS: u8 = 7;
 
 pub fn method_of(t: u8) -> &'static str {
     match t {
-        T_GETINFO => "org.varlink.service.GetInfo",
-        T_GETDESC => "org.varlink.service.GetInterfaceDescription",
-        T_BUILTIN_UNKNOWN => "org.varlink.service.Nope",
-        T_REGISTERED => "a.b.M",
-        T_UNKNOWN_IFACE => "a.c.M",
+        T_DISPATCH => "a.b.M",
         T_NODOT => "nodot",
-        _ => "",
+        T_EMPTY => "",
+        T_LEADING_DOT => ".M",
+        T_DOUBLE_DOT => "a..M",
+        T_TRAILING_DOT => "M.",
+        _ => "org.varlink.service.GetInfo",
     }
 }
 
-// parameters
-pub const P_ABSENT: u8 = 0;
-pub const P_NULL: u8 = 1;
-pub const P_NONOBJECT: u8 = 2; // true
-pub const P_EMPTYOBJ: u8 = 3; // {}
-pub const P_IFACE_REG: u8 = 4; // {"interface":"a.b"}
-pub const P_IFACE_UNKNOWN: u8 = 5; // {"interface":"zz"}
-pub const P_IFACE_SERVICE: u8 = 6; // {"interface":"org.varlink.service"}
-pub const NPARAMS: u8 = 7;
-
-pub fn params_json(p: u8) -> &'static str {
-    match p {
-        P_ABSENT => "",
-        P_NULL => ",\"parameters\":null",
-        P_NONOBJECT => ",\"parameters\":true",
-        P_EMPTYOBJ => ",\"parameters\":{}",
-        P_IFACE_REG => ",\"parameters\":{\"interface\":\"a.b\"}",
-        P_IFACE_UNKNOWN => ",\"parameters\":{\"interface\":\"zz\"}",
-        _ => ",\"parameters\":{\"interface\":\"org.varlink.service\"}",
+/// interface part = the method up to its last dot; None if there is no dot
+pub fn iface_of(t: u8) -> Option<&'static str> {
+    match t {
+        T_DISPATCH => Some("a.b"),
+        T_NODOT | T_EMPTY => None,
+        T_LEADING_DOT => Some(""),
+        T_DOUBLE_DOT => Some("a."),
+        T_TRAILING_DOT => Some("M"),
+        _ => Some("org.varlink.service"),
     }
 }
 
-// ops of the registered interface's method implementation
-pub const OP_CONT_ON: u8 = 0; // call.set_continues(true)
-pub const OP_CONT_OFF: u8 = 1; // call.set_continues(false)
-pub const OP_REPLY: u8 = 2; // call.reply_struct(Reply::parameters(None))?
-pub const OP_REPLY_ERR: u8 = 3; // call.reply_struct(Reply::error("a.b.E", None))?
-pub const OP_INVALID_PARAM: u8 = 4; // call.reply_invalid_parameter("p")?
-pub const OP_FAIL: u8 = 5; // return Err(..)   (connection is closed by the caller)
-pub const OP_UPGRADE: u8 = 6; // call.to_upgraded()
-pub const NOPS: u8 = 7;
+pub const O_OK: u8 = 0; // implementation returns Ok(())
+pub const O_ERR: u8 = 1; // implementation returns Err(..): the connection must be closed
+pub const O_UPGRADE: u8 = 2; // implementation calls to_upgraded() and returns Ok(())
+pub const NOUTCOMES: u8 = 3;
+
+pub const MAXREPLIES: u8 = 2;
 
 #[derive(Clone, Copy, Debug)]
 pub struct Msg {
     pub parse_ok: bool,
-    pub more: Option<bool>,
-    pub oneway: Option<bool>,
-    pub upgrade: Option<bool>,
     pub target: u8,
-    pub params: u8,
-    pub nops: u8,
-    pub ops: [u8; MAXOPS],
+    /// replies the dispatched implementation writes before returning
+    pub nreplies: u8,
+    pub outcome: u8,
 }
 
 impl Msg {
     pub const fn blank() -> Msg {
         Msg {
             parse_ok: true,
-            more: None,
-            oneway: None,
-            upgrade: None,
             target: 0,
-            params: 0,
-            nops: 0,
-            ops: [0; MAXOPS],
+            nreplies: 0,
+            outcome: 0,
         }
-    }
-    pub fn is_oneway(&self) -> bool {
-        self.oneway == Some(true)
-    }
-    pub fn wants_more(&self) -> bool {
-        self.more == Some(true)
     }
 }
 
@@ -100,31 +77,12 @@ pub struct C01 {
     pub msgs: [Msg; KMAX],
 }
 
-pub fn draw_msg<S: Src>(s: &mut S, allow_upgrade_op: bool) -> Msg {
-    let parse_ok = s.bool();
-    let more = s.opt_bool();
-    let oneway = s.opt_bool();
-    let upgrade = s.opt_bool();
-    let target = s.below(NTARGETS);
-    let params = s.below(NPARAMS);
-    let nops = s.below(MAXOPS as u8 + 1);
-    let mut ops = [0u8; MAXOPS];
-    let mut i = 0;
-    while i < MAXOPS {
-        let o = s.below(NOPS);
-        s.assume(allow_upgrade_op || o != OP_UPGRADE);
-        ops[i] = o;
-        i += 1;
-    }
+pub fn draw_msg<S: Src>(s: &mut S) -> Msg {
     Msg {
-        parse_ok,
-        more,
-        oneway,
-        upgrade,
-        target,
-        params,
-        nops,
-        ops,
+        parse_ok: s.bool(),
+        target: s.below(NTARGETS),
+        nreplies: s.below(MAXREPLIES + 1),
+        outcome: s.below(NOUTCOMES),
     }
 }
 
@@ -132,15 +90,11 @@ pub fn draw<S: Src>(s: &mut S, k: usize) -> C01 {
     let mut msgs = [Msg::blank(); KMAX];
     let mut i = 0;
     while i < k && i < KMAX {
-        msgs[i] = draw_msg(s, false);
+        msgs[i] = draw_msg(s);
         i += 1;
     }
     C01 { k, msgs }
 }
-
-// ------------------------------------------------------------------------------------
-// What the property demands for one message, given the scenario. Shared by the harness
-// oracle and the native replayer so both judge by the same rule.
 
 pub const E_NONE: u8 = b'-';
 pub const E_IFACE_NOT_FOUND: u8 = b'I';
@@ -150,22 +104,20 @@ pub const E_OTHER: u8 = b'X';
 
 #[derive(Clone, Copy, Debug, PartialEq)]
 pub struct Expect {
-    /// number of reply messages written for this request
-    pub writes: usize,
-    /// (continues flag set, error code) of each reply, in order
-    pub cont: [bool; MAXOPS],
-    pub err: [u8; MAXOPS],
-    /// the connection is closed at this request (parse error, or the dispatch returned Err)
+    /// replies written by the dispatched implementation
+    pub script_replies: usize,
+    /// the library itself answers with InterfaceNotFound
+    pub iface_not_found: bool,
+    /// the connection is closed at this request
     pub closes: bool,
-    /// the method implementation asked for an upgrade
+    /// the loop must stop and hand the connection over to the upgraded handler
     pub upgraded: bool,
 }
 
 pub fn expect(m: &Msg) -> Expect {
     let mut e = Expect {
-        writes: 0,
-        cont: [false; MAXOPS],
-        err: [E_NONE; MAXOPS],
+        script_replies: 0,
+        iface_not_found: false,
         closes: false,
         upgraded: false,
     };
@@ -173,58 +125,15 @@ pub fn expect(m: &Msg) -> Expect {
         e.closes = true;
         return e;
     }
-    let silent = m.is_oneway();
-    let one = |e: &mut Expect, code: u8| {
-        if !silent {
-            e.writes = 1;
-            e.err[0] = code;
+    if iface_of(m.target).is_some() {
+        e.script_replies = m.nreplies as usize;
+        match m.outcome {
+            O_OK => {}
+            O_ERR => e.closes = true,
+            _ => e.upgraded = true,
         }
-    };
-    match m.target {
-        T_GETINFO => one(&mut e, E_NONE),
-        T_GETDESC => match m.params {
-            P_ABSENT | P_NULL => one(&mut e, E_INVALID_PARAM),
-            // not an object / no `interface` member: the arguments do not deserialize;
-            // the dispatch fails and the connection is closed without a reply
-            P_NONOBJECT | P_EMPTYOBJ => e.closes = true,
-            P_IFACE_REG | P_IFACE_SERVICE => one(&mut e, E_NONE),
-            _ => one(&mut e, E_INVALID_PARAM),
-        },
-        T_BUILTIN_UNKNOWN => one(&mut e, E_METHOD_NOT_FOUND),
-        T_REGISTERED => {
-            let mut cont = false;
-            let mut i = 0;
-            while i < m.nops as usize && i < MAXOPS {
-                match m.ops[i] {
-                    OP_CONT_ON => cont = true,
-                    OP_CONT_OFF => cont = false,
-                    OP_REPLY | OP_REPLY_ERR | OP_INVALID_PARAM => {
-                        if !silent {
-                            if cont && !m.wants_more() {
-                                // continues without more: error, nothing written
-                                e.closes = true;
-                                return e;
-                            }
-                            let w = e.writes;
-                            e.cont[w] = cont;
-                            e.err[w] = match m.ops[i] {
-                                OP_REPLY => E_NONE,
-                                OP_REPLY_ERR => E_OTHER,
-                                _ => E_INVALID_PARAM,
-                            };
-                            e.writes += 1;
-                        }
-                    }
-                    OP_FAIL => {
-                        e.closes = true;
-                        return e;
-                    }
-                    _ => e.upgraded = true,
-                }
-                i += 1;
-            }
-        }
-        _ => one(&mut e, E_IFACE_NOT_FOUND),
+    } else {
+        e.iface_not_found = true;
     }
     e
 }
@@ -234,16 +143,5 @@ pub fn request_json(m: &Msg) -> String {
     if !m.parse_ok {
         return String::from("{\"method\":");
     }
-    let f = |name: &str, v: Option<bool>| match v {
-        None => String::new(),
-        Some(b) => format!(",\"{}\":{}", name, b),
-    };
-    format!(
-        "{{\"method\":\"{}\"{}{}{}{}}}",
-        method_of(m.target),
-        f("more", m.more),
-        f("oneway", m.oneway),
-        f("upgrade", m.upgrade),
-        params_json(m.params)
-    )
+    format!("{{\"method\":\"{}\"}}", method_of(m.target))
 }
